@@ -4,6 +4,7 @@ import (
 	"bytes"
 	"encoding/json"
 	"fmt"
+	bdspan "github.com/bytedance/gopkg/lang/span"
 	"sort"
 	"unsafe"
 
@@ -47,7 +48,7 @@ type span struct {
 func c16Decode(k c16Case, spanOn bool, report func(class, msg string)) (vals [][]byte, ok bool) {
 	thrift.SetSpanCache(spanOn)
 	defer thrift.SetSpanCache(false)
-	thrift.VerifSpanReset()
+	bdspan.VerifResetAll()
 	mcache.VerifReset()
 	vsync.Reset()
 	// build the input: N values, lengths cycling over k.Lens, distinct content
